@@ -1,6 +1,7 @@
 package main
 
 import (
+	"fmt"
 	"go/types"
 	"strings"
 
@@ -93,7 +94,7 @@ func (in *Interp) intrinsic(fn *ssa.Function, args []Value) (Value, bool) {
 var vfNames = map[string]bool{"vfInt": true, "vfPick": true, "vfU8": true, "vfU16": true, "vfU32": true, "vfU64": true, "vfI8": true, "vfI16": true, "vfI32": true, "vfI64": true,
 	"vfBool": true, "vfBytes": true, "vfString": true, "vfAssume": true, "vfAssert": true, "vfReach": true, "vfKnown": true, "vfObserve": true,
 	"vfThorough": true, "vfNative": true, "vfBound": true, "vfLoopBound": true, "vfExpectPanic": true, "vfUnwindIsViolation": true,
-	"vfConcurrent": true, "vfSettle": true, "vfAllocBytes": true, "vfRepeat": true, "vfAssertDeepEqual": true, "vfIgnorePanics": true, "vfSmallLen": true, "vfSeqCap": true, "vfDeepEqual": true, "vfIsErrorf": true}
+	"vfConcurrent": true, "vfSettle": true, "vfAllocBytes": true, "vfRepeat": true, "vfAllocBytesIn": true, "vfAssertDeepEqual": true, "vfIgnorePanics": true, "vfSmallLen": true, "vfSeqCap": true, "vfDeepEqual": true, "vfIsErrorf": true}
 
 func (in *Interp) isVFIntrinsic(n string) bool { return vfNames[n] }
 
@@ -329,7 +330,22 @@ func (in *Interp) atoi(s *StrV) Value {
 	}
 	n, ok := constInt(s.len)
 	if !ok {
-		in.unsupported("atoi of string with symbolic length")
+		// case split on short lengths; longer numerals are over-approximated by an
+		// arbitrary result (value or error)
+		conds := make([]*Term, 10)
+		for i := 0; i < 9; i++ {
+			conds[i] = Eq(s.len, IX(int64(i)))
+		}
+		conds[9] = ICmp("<", IX(8), s.len)
+		n = in.choose(conds)
+		if n == 9 {
+			in.intNondet++
+			if in.chooseN("atoi-long", 2) == 0 {
+				return errV()
+			}
+			in.fresh++
+			return TupleV{IntVarR(fmt.Sprintf("atoi!%d", in.fresh), minInt64, maxInt64), (*IfaceV)(nil)}
+		}
 	}
 	if n == 0 || n > 18 {
 		return errV()
